@@ -77,6 +77,9 @@ pub struct HistCfg {
     /// never scan above the height the wallet knows as chain tip: tell it the tip first (the
     /// scan-queue property quantifies over scans inside the wallet's known extent)
     pub tip_before_scan: bool,
+    /// extra foreign outputs per transaction (dense blocks: batches with more than 1024
+    /// commitments per pool take the parallel subtree-building path)
+    pub dense_outputs: u32,
 }
 
 impl HistCfg {
@@ -123,6 +126,7 @@ impl HistCfg {
             base_offset: rng.gen_range(0..50),
             avoid_f1: rng.gen_bool(0.6),
             tip_before_scan: false,
+            dense_outputs: 0,
         }
     }
 
@@ -282,7 +286,11 @@ impl Hist {
                 built.iter().flat_map(|b| b.spends.clone()).collect();
             let pools = self.cfg.pools.clone();
             for _ in 0..n_tx {
-                let p = self.sim.random_tx_plan(&pools, self.cfg.spend_bias, &used);
+                let mut p = self.sim.random_tx_plan(&pools, self.cfg.spend_bias, &used);
+                for _ in 0..self.cfg.dense_outputs {
+                    let pool = pools[self.rng.gen_range(0..pools.len())];
+                    p.outs.push(crate::sim::OutPlan::Foreign { pool, value: 1000 });
+                }
                 used.extend(p.spends.iter().copied());
                 let b = self.sim.build_tx(&p, height);
                 built.push(b);
